@@ -1,5 +1,7 @@
 import SctpVerif.Proofs.NetSys.LiveDrain
 import SctpVerif.Proofs.NetSys.LiveTaken
+import SctpVerif.Proofs.NetSys.LiveRoundOk
+import SctpVerif.Proofs.NetSys.LiveHonest
 import SctpVerif.Props.C01sel
 /-!
 # C02 on the composed model — the receiver's own SACKs make the sender-side progress theorems applicable
@@ -60,18 +62,22 @@ the receive queue; here it is evaluated on the example run only.
   which case `willSendAbort` or `panicked` is up afterwards.
 `LiveDefs.lean` states the premises of one round as the decidable `RoundOk P s` = receiver established ∧ `Room` ∧ `InSync` (the
 sender's cumulative ack point is not ahead of the receiver's, and when they coincide the lowest outstanding chunk is not
-gap-acked) ∧ `HeadOk` (no ABORT / panic in answer to the round's first delivery). STILL MISSING, each with the lemma that
-closes it: (a) the glue `RoundOk P s → 0 < outstanding s → Taken P s` — the first `deliver` of the round carries the chunk of
-`C02_netsys_lowest_on_wire` to the state of `C02_netsys_receiver_takes` (`run_acceptAll`, `run_idx_mono`, `sndPre_cumAck`
-are proved; the frame of `chunksStart` / `chunksEnd` around `handleData` and the split `roundOps = firstOps ++ …` are not);
-(b) `Honest ⇒ InSync` as a run invariant (proved towards it: `markGaps_acked` — a chunk acked by the gap loop is named by a
-block —, `gather_ackedFrom` — a gather appends un-acked chunks only; missing: the receiver-side monotonicity "accepted stays
-accepted" over `qrun` and the induction over the run); (c) `Room` after the application has read everything readable from
-`FitsBuffer` (`maxMessageSize ≤ maxReceiveBufferSize`): needs the CONVERSE of `Reasm.OrdInv.pushed` — every pushed fragment of
-a message at or above the cursor is in the table — so that "nothing held above the cumulative point and nothing readable"
-bounds the held bytes by one incomplete message; the same converse gives `reads = writes` at the end (`C02_netsys_all_read`,
-not stated); (d) `HeadOk` from `maxReassemblyQueueEntries = 0` (the per-queue invariant `maxEntries = 0`; `QPres` of
-`Proofs/Receiver/Basic.lean` quantifies over all entry limits and does not apply as it is).
+gap-acked) ∧ `HeadOk` (no ABORT / panic in answer to the round's first delivery).
+
+**Third pass.** (a) The glue is proved: `C02_netsys_roundok_taken` — `RoundOk P s` and something outstanding give `Taken P s`
+(the round's first `deliver` carries exactly the chunk of the sender half into exactly the receiver state of the receiver
+half; afterwards the receiver's cumulative point only moves forward and the round's sender operations do not move the
+cumulative ack point) — and with it `C02_netsys_drains_roundok`: `C02_netsys_drains_partial` with the opaque `TakenN` replaced
+by the four readable per-round premises `RoundOkN` (over `Reliable` runs, which abandon nothing: `noab_of_reliable`).
+(b) `C02_netsys_honest_insync`: for runs whose sender only processed SOUND SACKs (`Honest`) `InSync` holds whenever the receive
+queue is pop-normalised — run invariant `run_hl`: every gap-acked in-flight chunk was really received — and
+`C02_netsys_honest_taken` is the one-round statement with `InSync` gone. STILL OPEN: (b') iterating (b) over the healed
+rounds (the truthful SACK is sound, so `HL` is kept; `step_hl` is the step lemma; not assembled into a `drains_honest`);
+(c) `Room` after the application has read everything readable from `FitsBuffer` (`maxMessageSize ≤ maxReceiveBufferSize`): needs
+the CONVERSE of `Reasm.OrdInv.pushed` — every pushed fragment of a message at or above the cursor is in the table — which
+also gives `reads = writes` at the end (`C02_netsys_all_read`, not stated); (d) `HeadOk` and the pop-normalised queue from
+`maxReassemblyQueueEntries = 0` (per-queue invariant `maxEntries = 0`; `Receiver.QPres` quantifies over all entry limits and does
+not apply as it is) — both fail only after a reassembly error, i.e. when the receiver is about to ABORT.
 
 **NOT covered**: timers really firing and their back-off bounds ("within a few maximum RTOs": C19 gives the RTO clamp
 `C19_rto_clamp`-style bounds and the timer automaton; a healed round costs at most one T3 period ≤ `rtoMax` plus the 200 ms
@@ -205,6 +211,84 @@ theorem C02_netsys_drains_partial (P : Params) (ops : List Op) (n : Nat) (hc : S
   obtain ⟨e1, e2, e3⟩ := drained_buffered d1 d2
   exact ⟨hfin, e1, e2, e3, fun hok hwb => drained_streams P hc _ hok hwb e1 e2⟩
 
+/-- **One healed round, readable premises: `RoundOk` gives `Taken`.** In every reachable NetSys state over reliable ordered
+streams (`Reliable ops`) with the sender established, `InfFit` and something outstanding: if the receiver is established
+(`state = 3`), has `Room` (credit, or something held above its cumulative point), the two endpoints are `InSync` (the sender's
+cumulative ack point is not ahead of the receiver's cumulative point, and when they coincide the lowest outstanding chunk
+is not gap-acked) and the receiver does not answer the round's first delivery with an ABORT (`HeadOk`) — `RoundOk P s` —
+then in this healed round the receiver's cumulative point is ahead of the sender's when the SACK is built: `Taken P s`.
+(Sender half `C02_netsys_lowest_on_wire`, receiver half `C02_netsys_receiver_takes`, glued: the round's first `deliver`
+carries exactly that chunk into exactly that receiver state.) -/
+theorem C02_netsys_roundok_taken (P : Params) (ops : List Op) (hc : SenderProofs.CfgOk P.cfg) (hf : SenderProofs.CfgFit P.cfg)
+    (hN : chunksWritten P ops < 2^31) (hrel : Reliable ops = true)
+    (hest : (run P (init P) ops).snd.established = true)
+    (hsm : (run P (init P) ops).snd.inflight.length + (run P (init P) ops).snd.pending.length < 2^31)
+    (hfit : SenderProofs.InfFit (run P (init P) ops).snd)
+    (hok : RoundOk P (run P (init P) ops) = true) (hpos : 0 < outstanding (run P (init P) ops)) :
+    Taken P (run P (init P) ops) = true :=
+  taken_of_roundOk P ops hc hN (snd_live P ops hc hf hest hsm) hfit (noab_of_reliable P ops hc hrel) hok hpos
+
+/-- **Honest runs are `InSync`.** For every NetSys run whose sender only ever processed SOUND SACKs (`Honest`: at the
+moment a SACK is processed its cumulative TSN is not ahead of the receiver's cumulative point and every TSN in its gap
+blocks is at or below that point or held in the receive queue — what `C05_assoc_sack_sound` proves of every SACK the real
+receiver emits, and it stays true of an old SACK for ever: delayed, duplicated, reordered, lost SACKs are all sound; the
+advertised window and the RACK / PTO marks are free), with fewer than 2^31 chunks written and in flight (`TsnOk`): the
+sender's cumulative ack point is not ahead of the receiver's cumulative point, and — the receive queue being pop-normalised
+(`hnorm`: the TSN right after the cumulative point is not held; true after every `handleData` that did not end in a
+reassembly error) — when the two coincide the lowest outstanding chunk is not gap-acked. Behind it the run invariant
+`NetSysLive.run_hl`: every gap-acked in-flight chunk of the sender has been accepted by the receiver ("accepted stays
+accepted": `step_rcv_got`; only a processed SACK raises `acked`, on chunks named by its blocks: `ackPhase_acked`). -/
+theorem C02_netsys_honest_insync (P : Params) (ops : List Op) (hc : SenderProofs.CfgOk P.cfg) (hN : chunksWritten P ops < 2^31)
+    (hts : SenderProofs.TsnOk (Sender.init P.cfg P.tsn P.peerRwnd) (sndOps P (init P).snd ops))
+    (hh : Honest P (init P) ops = true)
+    (hnorm : RecvQ.hasChunk (run P (init P) ops).rcv.pq ((run P (init P) ops).rcv.pq.cum + 1) = false) :
+    InSync (run P (init P) ops) = true :=
+  have hM : tsnsUsed P ops < 2^31 := Nat.lt_of_le_of_lt (tsnsUsed_le P ops) hN
+  insync_of_hl P ops hc hM (run_hl P ops hc hM hts hh) hnorm
+
+/-- **One healed round of an honest run**: `C02_netsys_roundok_taken` with `InSync` replaced by `Honest ops` and the
+pop-normalised receive queue. -/
+theorem C02_netsys_honest_taken (P : Params) (ops : List Op) (hc : SenderProofs.CfgOk P.cfg) (hf : SenderProofs.CfgFit P.cfg)
+    (hN : chunksWritten P ops < 2^31) (hrel : Reliable ops = true)
+    (hts : SenderProofs.TsnOk (Sender.init P.cfg P.tsn P.peerRwnd) (sndOps P (init P).snd ops))
+    (hh : Honest P (init P) ops = true)
+    (hest : (run P (init P) ops).snd.established = true)
+    (hsm : (run P (init P) ops).snd.inflight.length + (run P (init P) ops).snd.pending.length < 2^31)
+    (hst : (run P (init P) ops).rcv.state = 3#32) (hroom : Room (run P (init P) ops).rcv = true)
+    (hnorm : RecvQ.hasChunk (run P (init P) ops).rcv.pq ((run P (init P) ops).rcv.pq.cum + 1) = false)
+    (hhead : HeadOk P (run P (init P) ops) = true) (hpos : 0 < outstanding (run P (init P) ops)) :
+    Taken P (run P (init P) ops) = true := by
+  have hfit : SenderProofs.InfFit (run P (init P) ops).snd := by
+    rw [snd_run]
+    exact SenderProofs.run_inffit _ _ (SenderProofs.init_seq _ _ _) (SenderProofs.init_win _ _ _ hc)
+      (SenderProofs.init_inffit _ _ _) hts
+  have hsync := C02_netsys_honest_insync P ops hc hN hts hh hnorm
+  exact C02_netsys_roundok_taken P ops hc hf hN hrel hest hsm hfit
+    (by simp only [RoundOk, Bool.and_eq_true, beq_iff_eq]; exact ⟨⟨⟨hst, hroom⟩, hsync⟩, hhead⟩) hpos
+
+/-- **The healed rounds drain the sender — readable premises.** `C02_netsys_drains_partial` with the opaque `TakenN`
+replaced by `RoundOkN P n s`: at the start of each of the `n` rounds that has something outstanding, the receiver is
+established, has `Room`, the endpoints are `InSync`, and the first delivery is not answered with an ABORT. From every
+reachable NetSys state over reliable ordered streams (`Reliable ops`) with the sender established and `InfFit`
+(`SenderProofs.run_inffit` under `TsnOk`): `n ≥ pending + in-flight chunks` healed rounds end with both sender queues empty,
+`Association.BufferedAmount()` = 0, and every stream's `BufferedAmount()` = 0 under C15's D9 premise.
+Still `_partial`-grade in three premises, each with the lemma that would remove it (file header): `InSync` (from `Honest`),
+`Room` (from `FitsBuffer` + the reads), `HeadOk` (from `maxReassemblyQueueEntries = 0`). -/
+theorem C02_netsys_drains_roundok (P : Params) (ops : List Op) (n : Nat) (hc : SenderProofs.CfgOk P.cfg)
+    (hf : SenderProofs.CfgFit P.cfg) (hN : chunksWritten P ops < 2^31) (hrel : Reliable ops = true)
+    (hest : (run P (init P) ops).snd.established = true)
+    (hsm : (run P (init P) ops).snd.inflight.length + (run P (init P) ops).snd.pending.length < 2^31)
+    (hfit : SenderProofs.InfFit (run P (init P) ops).snd)
+    (hok : RoundOkN P n (run P (init P) ops) = true) (hn : outstanding (run P (init P) ops) ≤ n) :
+    let fin := run P (init P) (ops ++ healedRounds P n (run P (init P) ops))
+    fin = healedN P n (run P (init P) ops) ∧
+    fin.snd.inflight = [] ∧ fin.snd.pending = [] ∧ fin.snd.penBytes + fin.snd.infBytes = 0 ∧
+    (SenderProofs.RunOk (Sender.init P.cfg P.tsn P.peerRwnd)
+        (sndOps P (init P).snd (ops ++ healedRounds P n (run P (init P) ops))) →
+      fin.snd.wrapBuf = false → ∀ si, SenderProofs.bufOf fin.snd si = 0) :=
+  C02_netsys_drains_partial P ops n hc hf hN hest hsm
+    (takenN_of_roundOkN P hc n ops hN (snd_live P ops hc hf hest hsm) hfit hrel hok) hn
+
 /-- **Safety along the healed rounds**: C01 for the run extended by any number of healed rounds — over reliable ordered
 streams with FIFO selection (the healed rounds select FIFO and open no stream), what the application has read on a stream is
 a prefix of what was written on it. (`C01_netsys_prefix_fifo` for the extended operation list; its hypotheses are
@@ -288,6 +372,46 @@ example :
     readsOn PD 1 (init PD) all = writesOn PD 1 (init PD) all ∧ readsOn PD 2 (init PD) all = writesOn PD 2 (init PD) all ∧
     readsOn PD 1 (init PD) all = [(51, [1, 2, 3, 4, 5]), (52, [9, 8, 7]), (53, [4, 4, 4, 4, 4, 4])] ∧
     SenderProofs.bufOf (run PD (init PD) all).snd 1 = 0 := by decide
+
+-- `InfFit` of the example state (every un-acked in-flight chunk fits a packet), by evaluation
+private theorem infFit_ex : SenderProofs.InfFit (run PD (init PD) ops0).snd := by
+  intro c hc ha
+  have : ∀ c ∈ (run PD (init PD) ops0).snd.inflight,
+      decide (Sender.hdr + c.sizeInPacket (run PD (init PD) ops0).snd.cfg.useInterleaving ≤ ((run PD (init PD) ops0).snd.cfg.mtu.toNat : Int)) = true := by
+    decide
+  exact of_decide_eq_true (this c hc)
+
+-- non-vacuity of `C02_netsys_roundok_taken` and `C02_netsys_drains_roundok` (n = 9 = pending + in flight)
+set_option maxRecDepth 1000000 in
+example : Taken PD (run PD (init PD) ops0) = true :=
+  C02_netsys_roundok_taken PD ops0 (by unfold SenderProofs.CfgOk; decide) (by unfold SenderProofs.CfgFit; decide)
+    (by decide) (by decide) (by decide) (by decide) infFit_ex (by decide) (by decide)
+
+set_option maxRecDepth 1000000 in
+example :
+    let fin := run PD (init PD) (ops0 ++ healedRounds PD 9 (run PD (init PD) ops0))
+    fin.snd.inflight = [] ∧ fin.snd.pending = [] ∧ fin.snd.penBytes + fin.snd.infBytes = 0 :=
+  let h := C02_netsys_drains_roundok PD ops0 9 (by unfold SenderProofs.CfgOk; decide) (by unfold SenderProofs.CfgFit; decide)
+    (by decide) (by decide) (by decide) (by decide) infFit_ex (by decide) (by decide)
+  ⟨h.2.1, h.2.2.1, h.2.2.2.1⟩
+
+-- non-vacuity of `C02_netsys_honest_insync` / `C02_netsys_honest_taken`: the example history is honest (its one SACK, though
+-- mutilated, names only what the receiver holds) and `TsnOk`
+set_option maxRecDepth 1000000 in
+example : InSync (run PD (init PD) ops0) = true :=
+  C02_netsys_honest_insync PD ops0 (by unfold SenderProofs.CfgOk; decide) (by decide) (by decide) (by decide) (by decide)
+
+set_option maxRecDepth 1000000 in
+example : Taken PD (run PD (init PD) ops0) = true :=
+  C02_netsys_honest_taken PD ops0 (by unfold SenderProofs.CfgOk; decide) (by unfold SenderProofs.CfgFit; decide)
+    (by decide) (by decide) (by decide) (by decide) (by decide) (by decide) (by decide) (by decide) (by decide) (by decide) (by decide)
+
+-- test: a run that is NOT honest — the sender is handed a SACK for TSN 2^32−2 that the receiver never got — is not `InSync`
+set_option maxRecDepth 1000000 in
+example :
+    let bad := [Op.snd (.openS 1 false 0 0 0), .write 1 51, .snd (.gather Sender.freeOracle [0, 0, 0]),
+      .snd (.sack 4294967294#32 65536 [] [])]
+    Honest PD (init PD) bad = false ∧ InSync (run PD (init PD) bad) = false := by decide
 
 -- non-vacuity of `C02_netsys_delivered_prefix`
 set_option maxRecDepth 1000000 in
